@@ -35,7 +35,7 @@ TBook == /\ l <= Len(Rec) /\ Ev.e = "book"
          \* (... = TRUE: evaluated as an expression; as part of the action every disjunction inside would
          \* be a branch of the next-state relation and TLC would enumerate the combinations)
          \* the reading of the model with some subset R of the named deviations repaired (R = {}: as it is)
-         /\ (\E R \in SUBSET DevNames : \E asis \in {RI(R)!Read(Ev.files).obs} : MixObs(Ev.obs, asis, Ev.ideal)) = TRUE
+         /\ (\E R \in SUBSET DevNames : \E asis \in {RI(R)!ReadF(Ev.files, IF "force" \in DOMAIN Ev THEN Ev.force ELSE 0).obs} : MixObs(Ev.obs, asis, Ev.ideal)) = TRUE
          /\ nideal' = nideal + (IF Ev.obs = Ev.ideal THEN 1 ELSE 0)
          /\ l' = l + 1
 Next == TBook
@@ -45,5 +45,5 @@ Accepted ==
   LET d == TLCGet("stats").diameter IN
   IF d - 1 = Len(Rec) THEN PrintT(<<"ACCEPTED", ToString(Len(Rec))>>)
   ELSE PrintT(<<"REJECTED", ToJson([at |-> d, run |-> IF "run" \in DOMAIN Rec[d] THEN Rec[d].run ELSE 0, lay |-> Rec[d].lay, cp |-> Rec[d].cp,
-                                    obs |-> Rec[d].obs, asis |-> Read(Rec[d].files).obs])>>)
+                                    obs |-> Rec[d].obs, asis |-> ReadF(Rec[d].files, IF "force" \in DOMAIN Rec[d] THEN Rec[d].force ELSE 0).obs])>>)
 =============================================================================
